@@ -70,6 +70,10 @@ def exact_run(y, w, lam):
             aa = [Fraction(0) if (isinstance(a, float) and a == 0.0) else a] * len(b) if not hasattr(a, "__len__") else list(a)
             return np.array([ai if ci else bi for ci, ai, bi in zip(cond, aa, b)], dtype=object)
         g["where"] = fwhere
+    # helpers the source may call (other njit functions of the module) run from their Python source too
+    helpers = {k: v for k, v in g.items() if hasattr(v, "py_func") and callable(getattr(v, "py_func", None)) and v is not mod.ws2d}
+    for k, v in helpers.items():
+        g[k] = v.py_func
     old = sys.gettrace()
     sys.settrace(tracer)
     try:
@@ -79,6 +83,8 @@ def exact_run(y, w, lam):
         g["zeros"] = saved
         if saved_where is not None:
             g["where"] = saved_where
+        for k, v in helpers.items():
+            g[k] = v
     for k in ("d", "c", "e"):
         captured.setdefault(k, [])      # a source that returns before allocating them: only z is checked
     captured["z"] = list(z)
@@ -99,7 +105,14 @@ def execute(c):
         except ZeroDivisionError:
             c["z"] = ["nan"] * len(y)
             c["d"] = c["c"] = c["e"] = c["z"]
-    else:
+        except Exception as ex:
+            # a source that cannot run on Fractions at all (a limitation of this leg, not a verdict on the code):
+            # the case is decided by the float leg instead
+            c["op"] = "float"
+            c["exact_unavailable"] = type(ex).__name__
+    if c["op"] == "float":
+        for k in ("d", "c", "e"):
+            c.pop(k, None)
         z = ws2d(np.array([float(v) for v in y]), float(lam), np.array([float(v) for v in w]))
         c["z"] = [core.rat(v) for v in z.tolist()]
     return c
@@ -224,7 +237,10 @@ def binding_demo(rep, cases, verdicts):
         rep.notes.append("binding demo skipped: no accepted exact / float trace to corrupt")
         return
     bad1 = json.loads(json.dumps(base))
-    bad1["d"][3] = core.rat(Fraction(bad1["d"][3]) + Fraction(1, 10**9))
+    if len(bad1.get("d", [])) > 3:
+        bad1["d"][3] = core.rat(Fraction(bad1["d"][3]) + Fraction(1, 10**9))
+    else:        # a source whose factors are not locals of ws2d itself: only the result can be corrupted
+        bad1["z"][0] = core.rat(Fraction(bad1["z"][0]) + Fraction(1, 10**9))
     bad2 = json.loads(json.dumps(base))
     bad2["z"][2] = core.rat(Fraction(bad2["z"][2]) + 1)
     bad3 = json.loads(json.dumps(fb))
